@@ -13,6 +13,7 @@
 # limitations under the License.
 
 """Utility functions that operate on pytrees."""
+import collections
 from collections import abc
 import dataclasses
 import functools
@@ -312,14 +313,12 @@ def flatten_dict(
       empty_keys.append(new_key)
     else:
       items.append((new_key, v))
-  unique_keys, counts = np.unique(
-      np.array([x[0] for x in items]), return_counts=True)
-  if (counts > 1).any():
-    raise ValueError(f'got duplicate keys {unique_keys[counts > 1]}')
-  unique_empty_keys, counts = np.unique(
-      np.array(empty_keys), return_counts=True)
-  if (counts > 1).any():
-    raise ValueError(f'got duplicate keys {unique_empty_keys[counts > 1]}')
+  # compare keys as Python strings: a numpy string array drops trailing NUL
+  # characters, so that the distinct keys 'a' and 'a\x00' looked like duplicates.
+  for keys in ([x[0] for x in items], empty_keys):
+    duplicates = [k for k, n in collections.Counter(keys).items() if n > 1]
+    if duplicates:
+      raise ValueError(f'got duplicate keys {duplicates}')
   return dict(items), tuple(empty_keys)
 
 
